@@ -187,6 +187,21 @@ func (b *BlockSync) OnEnd(w *World) {
 				break
 			}
 			offers = append(offers, offer{"successor-without-signatures", forgedSuccessor(bi, types.NewCommit(h, 1, bi.ID, make([]types.CommitSig, len(vals.Validators))))})
+			// the successor of ANOTHER block of this height (the committed one with its genuine commit, and every real
+			// successor seen in the run): the commit is genuine, but it is not a commit for the block offered before it
+			for _, ob := range all {
+				if ob.Height != h || ob.ID.Equal(bi.ID) {
+					continue
+				}
+				if rec, ok := committed[h]; ok && rec.BlockID.Equal(ob.ID) {
+					offers = append(offers, offer{"successor-of-the-committed-block", forgedSuccessor(ob, rec.Seen)})
+				}
+				for _, nx := range all {
+					if nx.Height == h+1 && nx.Block.Header().LastBlockID.Equal(ob.ID) {
+						offers = append(offers, offer{"real-successor-of-another-block", nx.Block})
+					}
+				}
+			}
 			for _, of := range offers {
 				sn := prefix()
 				if sn == nil {
